@@ -355,7 +355,14 @@ pub fn enc_once(ctx: &Ctx, scn: &Value) -> EncOut {
     let r = catch_unwind(AssertUnwindSafe(|| match api {
         "chunks" => verif_encrypt_chunks(&mut rd, &mut wr, &ckey, &prefix, cs as u32),
         "key" if inject => key_encrypt(&mut rd, &mut wr, &s_priv, &s_pub, &r_pub, Some(&e_priv), Some(&e_pub), Some(&payload), AsymFileFormat::V1),
-        "key" => key_encrypt(&mut rd, &mut wr, &s_priv, &s_pub, &r_pub, None, None, None, AsymFileFormat::V1),
+        // randomness left to the library, in every combination of the optional arguments that is not a complete injection:
+        // a lone half of an ephemeral pair is documented to be ignored ("passing None ... will generate fresh keys")
+        "key" => match scn.get("eph").and_then(|x| x.as_str()).unwrap_or("none") {
+            "pub_only" => key_encrypt(&mut rd, &mut wr, &s_priv, &s_pub, &r_pub, None, Some(&e_pub), None, AsymFileFormat::V1),
+            "priv_only" => key_encrypt(&mut rd, &mut wr, &s_priv, &s_pub, &r_pub, Some(&e_priv), None, None, AsymFileFormat::V1),
+            "payload_only" => key_encrypt(&mut rd, &mut wr, &s_priv, &s_pub, &r_pub, None, None, Some(&payload), AsymFileFormat::V1),
+            _ => key_encrypt(&mut rd, &mut wr, &s_priv, &s_pub, &r_pub, None, None, None, AsymFileFormat::V1),
+        },
         "pass" => pass_encrypt(&mut rd, &mut wr, &pw, sl, PassFileFormat::V1),
         _ => panic!("api"),
     }));
@@ -955,7 +962,10 @@ pub fn run_bigdec(ctx: &Ctx, scn: &Value) -> Vec<Value> {
     let nrec = if plen == 0 { 1 } else { (plen + chunk - 1) / chunk };
     let rec_full = 32 + chunk;
     let last_len = plen - (nrec - 1) * chunk;
-    let flen = h + (nrec - 1) * rec_full + 32 + last_len;
+    let flen_core = h + (nrec - 1) * rec_full + 32 + last_len;
+    // "trail": bytes appended after the final record (generated, never held): the file must be rejected, in constant memory
+    let trail = ju64_or(scn, "trail", 0);
+    let flen = flen_core + trail;
     let t: *const Templates = &ctx.t;
     let header = sf.header.clone();
     let key = sf.key.clone();
@@ -965,6 +975,12 @@ pub fn run_bigdec(ctx: &Ctx, scn: &Value) -> Vec<Value> {
         let mut p = pos;
         let mut o = 0usize;
         while o < buf.len() {
+            if p >= flen_core {
+                for b in buf[o..].iter_mut() {
+                    *b = 0xAA;
+                }
+                break;
+            }
             if p < h {
                 buf[o] = header[p as usize];
                 p += 1;
@@ -994,6 +1010,7 @@ pub fn run_bigdec(ctx: &Ctx, scn: &Value) -> Vec<Value> {
     let heap_ref: i64 = if scn.get("heapref").and_then(|x| x.as_bool()).unwrap_or(false) && plen > 3 * chunk + 1 {
         let mut small = scn.clone();
         small["plen"] = json!(3 * chunk + 1);
+        small["trail"] = json!(std::cmp::min(trail, 1000));
         small["heapref"] = json!(false);
         let lines = run_bigdec(ctx, &small);
         lines.iter().filter_map(|l| l.get("heap").and_then(|x| x.as_i64())).max().unwrap_or(0)
@@ -1004,7 +1021,7 @@ pub fn run_bigdec(ctx: &Ctx, scn: &Value) -> Vec<Value> {
     let mut lines = Vec::new();
     lines.push(json!({
         "ev":"begin","op":"dec","api":api,"id":scn.get("id").cloned().unwrap_or(json!("")),
-        "cs":cs,"H":h,"flen":flen,"plen":plen,"class":"must_accept",
+        "cs":cs,"H":h,"flen":flen,"plen":plen,"class":if trail > 0 { "must_reject" } else { "must_accept" },
         "twin":{"used":false,"prefix_ok":true,"res":"n/a"},"faults":fault_kinds(scn),"heapk":heap_bound(cs, api),
         "heap_ref": heap_ref,
     }));
@@ -1013,7 +1030,7 @@ pub fn run_bigdec(ctx: &Ctx, scn: &Value) -> Vec<Value> {
         // number of records whose end <= consumed
         let c = e.consumed;
         let mut n_done = if c < h { 0 } else { std::cmp::min(nrec, (c - h) / rec_full) };
-        if c >= flen {
+        if c >= flen_core {
             n_done = nrec;
         }
         let authc: u64 = if n_done == nrec { plen } else { n_done * chunk };
